@@ -572,6 +572,10 @@ def run(ctx):
                 'interleaving, concurrent adds succeed once, each decision equals the decision on some policy-set version '
                 'between its start and end, a later cached answer is not stale; the logged action sequence is replayed '
                 'through the model' % (len(scenarios()) + len(cached_scenarios()), bound))
+    out.rule += ('; among the scenarios: a store of 52 policies (larger than the page of the paged listings) with one policy deleted '
+                 'meanwhile, two updates made one after the other by one thread, and - explored with the delay-bounded schedules at '
+                 'the granularity of every source line of vakt - a refused assignment to a stored policy; linearizations respect the '
+                 'real-time order of the mutation calls')
     return out
 
 
